@@ -39,7 +39,6 @@ var panicTable = map[string]string{
 	"deCapitalise:s[1:]":                                                      "as above",
 	"ParamData.MethodArg:p.TypeString()[2:]":                                  "Variadic is only set when the signature is variadic, the parameter is the last one and its type is a slice: go/types prints an unnamed slice as \"[]\" + element",
 	"MethodScope.resolveVarNameConflict:for-without-condition":                "candidates suggested+n are pairwise distinct and the scope holds finitely many variables and imports: some n is free after at most len(vars)+len(imports)+1 iterations",
-	"pkgInfoFromPath:errs[0]":                                                 "both uses are inside `len(errs) != 0` (the second after `len(errs) == 1` fell through, so len >= 2)",
 	"Registry.resolveImportConflict:for-without-condition":                    "names name+n are pairwise distinct and finitely many imports are registered, so some n is free",
 	"varNameForType:recursive call varNameForType(t)":                         "inside the nestedType closure, whose only call sites pass t.Elem() / t.Key() of the value being switched on (structural)",
 	"Registry.resolveImportConflict:recursive call Registry.resolveImportConflict(p, conflict, lvl + 1)": "the third-party holder of a wanted name is never a member of the pair (checked in the condition); beyond the deepest path level the wanted name is constant and has one holder, so a frame there either assigns or meets the equal-names branch, which is bounded by depth() and ends in numbering",
